@@ -27,6 +27,9 @@ pub fn install_panic_hook() {
       thread.name().unwrap_or("<unnamed>"),
       info
     );
+    if thread.name() == Some("main") || std::env::var_os("ORDSIM_VERBOSE").is_some() {
+      eprintln!("{msg}");
+    }
     PANICS.lock().unwrap_or_else(|e| e.into_inner()).push(msg);
   }));
 }
